@@ -391,6 +391,19 @@ int ChainSim::MineOn(int parent, int ntx, uint64_t txseed, int defect, int bound
             break;
         default: break;
         }
+        if ((defect == D_BAD_SIG || defect == D_WRONG_KEY || defect == D_STRIP_WITNESS) && txs.size() > 1) {
+            // a script-level defect goes to a random position of the block (not always last: the order in which script checks are
+            // queued matters to the parallel check queue), unless it spends an output created in this block
+            const CTransactionRef bad = txs.back();
+            bool in_block_parent = false;
+            for (const CTxIn& in : bad->vin)
+                for (size_t i = 0; i + 1 < txs.size(); ++i)
+                    if (txs[i]->GetHash() == in.prevout.hash) in_block_parent = true;
+            if (!in_block_parent) {
+                txs.pop_back();
+                txs.insert(txs.begin() + r.below(txs.size() + 1), bad);
+            }
+        }
         switch (boundary) {
         case B_LOCKTIME_HEIGHT_OK:
             if (auto c = one_input(any)) { simple_spend(*c, 0xfffffffe, (uint32_t)(height - 1), 1); ctx.probe("boundary_locktime_height"); }
